@@ -1,13 +1,13 @@
 -------------------------------- MODULE MCFullB --------------------------------
 (* second configuration of the product model: largest node id, SYNC producer on at boot, heartbeat producer off at boot,
    TPDO #1 of type 255 with an event time only, TPDO #2 synchronous on every SYNC, RPDO #1 synchronous, RPDO #2 asynchronous
-   with a dummy entry, an EMCY table of 12 errors *)
+   with a dummy entry, an EMCY table of 32 errors (letters on the identifiers 1, 8, 9 and the last one, 31) *)
 EXTENDS MCFull
 BTC == << TC(FALSE, 389, 255, 0, 2, 1, <<M("a", 8), Z4, Z4, Z4>>), TC(FALSE, 645, 1, 0, 0, 2, <<M("b", 8), M("w", 16), Z4, Z4>>) >>
 BRC == << RC(FALSE, 517, 1, 1, <<M("b", 8), Z4, Z4, Z4>>), RC(FALSE, 773, 254, 2, <<<<8, 0, 5, 0>>, M("l", 32), Z4, Z4>>) >>
 BSync == <<128, TRUE, 2000>>
 BHc == << <<10, 3>>, <<0, 0>> >>
-BTbl == << <<0, 4096>>, <<1, 8192>>, <<1, 8448>>, <<2, 12288>>, <<3, 16384>>, <<4, 20480>>, <<5, 24576>>, <<7, 65280>>, <<1, 8704>>, <<2, 12544>>, <<4, 20736>>, <<0, 4352>> >>
+BTbl == [k \in 1..32 |-> <<(k * 3) % 8, 4096 + 256 * (k % 200) + k>>]        \* the whole table of CO_EMCY_N = 32 errors
 BNmt == {<<"nmt", cs, t>> : cs \in {1, 2, 128}, t \in {0, 127}} \cup {<<"nmt", 1, 5>>, <<"nmt", 7, 127>>}
 BStart == {<<"nmt", 1, 0>>, <<"nmt", 1, 127>>}
 BReset == {<<"nmt", 130, 127>>, <<"nmt", 129, 0>>, <<"nmt", 130, 5>>}
@@ -20,7 +20,7 @@ BCfg == {<<"P", <<"cfg", "evt", TRUE, 1, 0>>>>, <<"P", <<"cfg", "evt", TRUE, 1, 
          <<"P", <<"cfg", "cid", FALSE, 1, <<5, 2, 0, 128>>>>>>, <<"P", <<"cfg", "cid", FALSE, 1, <<5, 2, 0, 0>>>>>>, <<"P", <<"cfg", "type", FALSE, 1, 254>>>>, <<"P", <<"cfg", "type", FALSE, 1, 1>>>>,
          <<"P", <<"cfg", "sid", TRUE, 1, <<128, 0, 0, 64>>>>>>, <<"P", <<"cfg", "sid", TRUE, 1, <<128, 0, 0, 0>>>>>>, <<"P", <<"cfg", "scyc", TRUE, 1, 3000>>>>, <<"P", <<"cfg", "scyc", TRUE, 1, 0>>>>, <<"P", <<"cfg", "sid", TRUE, 1, <<129, 0, 0, 64>>>>>>, <<"P", <<"cfg", "sid", TRUE, 1, <<129, 0, 0, 0>>>>>>,
          <<"P", <<"rdcfg", "scyc", TRUE, 1>>>>, <<"P", <<"rdcfg", "sid", TRUE, 1>>>>}
-BEmcy == {<<"E", <<"set", k, <<>>>>>> : k \in {1, 8, 9, 11}} \cup {<<"E", <<"clr", k>>>> : k \in {1, 8, 9, 11}} \cup {<<"E", <<"reset", FALSE>>>>, <<"E", <<"reset", TRUE>>>>, <<"E", <<"cnt">>>>,
+BEmcy == {<<"E", <<"set", k, <<>>>>>> : k \in {1, 8, 9, 31}} \cup {<<"E", <<"clr", k>>>> : k \in {1, 8, 9, 31}} \cup {<<"E", <<"reset", FALSE>>>>, <<"E", <<"reset", TRUE>>>>, <<"E", <<"cnt">>>>,
           <<"E", <<"rdreg">>>>, <<"E", <<"rdhist", 1>>>>, <<"E", <<"wrhist", 0>>>>, <<"E", <<"wrid", FALSE>>>>, <<"E", <<"wrid", TRUE>>>>}
 BGroups == <<BNmt, BStart, BStart, BReset, GMode, GInit, GTick, GTick, GTick, GTick, BHb, BHb, GApp, BPdo, BPdo, GSync, BCfg, BEmcy, GCsdo, GSrv, GSrv>>
 BLook == << <<"pool">>, <<"N", <<"getmode">>>>, <<"N", <<"sdord", 4119, 0>>>>, <<"N", <<"sdord", 4118, 1>>>>, <<"N", <<"sdord", 4118, 2>>>>, <<"P", <<"rdcfg", "sid", TRUE, 1>>>>, <<"P", <<"rdcfg", "cid", TRUE, 1>>>>,
@@ -28,6 +28,7 @@ BLook == << <<"pool">>, <<"N", <<"getmode">>>>, <<"N", <<"sdord", 4119, 0>>>>, <
             <<"N", <<"hb", 10, 5>>>>, <<"N", <<"hb", 11, 5>>>>, <<"P", <<"trig", 1>>>>, <<"P", <<"rpdo", 517, D1>>>>, <<"P", <<"sync", 128>>>>, <<"P", <<"sync", 128>>>>,
             <<"tick">>, <<"tick">>, <<"tick">>, <<"tick">>, <<"pool">>, <<"N", <<"hbev", 10>>>>, <<"P", <<"rd", "a">>>>, <<"P", <<"rd", "b">>>>,
             <<"E", <<"set", 9, <<>>>>>>, <<"E", <<"clr", 9>>>>, <<"tick">>, <<"tick">>, <<"tick">>, <<"pool">> >>
-BProbe == BLook \o << <<"nmt", 130, 127>> >> \o BLook \o << <<"nmt", 1, 127>>, <<"C", <<"up", 4, 5>>>>, <<"tick">>, <<"pool">>, <<"C", <<"srv", "ok">>>>, <<"C", <<"ubuf">>>>, <<"P", <<"trig", 1>>>>, <<"P", <<"wr", "a", <<33>>>>>>,
+\* (the last entry of the error table is active across the reset of the probe)
+BProbe == BLook \o << <<"E", <<"set", 31, <<>>>>>>, <<"nmt", 130, 127>>, <<"E", <<"cnt">>>>, <<"E", <<"set", 31, <<>>>>>>, <<"E", <<"clr", 31>>>> >> \o BLook \o << <<"nmt", 1, 127>>, <<"C", <<"up", 4, 5>>>>, <<"tick">>, <<"pool">>, <<"C", <<"srv", "ok">>>>, <<"C", <<"ubuf">>>>, <<"P", <<"trig", 1>>>>, <<"P", <<"wr", "a", <<33>>>>>>,
             <<"tick">>, <<"tick">>, <<"tick">>, <<"tick">>, <<"P", <<"sync", 128>>>>, <<"P", <<"sync", 128>>>>, <<"pool">> >>
 ===============================================================================
